@@ -118,6 +118,10 @@ structure St where
   firstPass : Bool := false
   numTF : Nat := 0
   timer : Bool := false           -- a happy-eyeballs timer is armed and not cancelled
+  /-- timers that were cancelled (`cancelled = true; timer.Stop()`) before their callback ran: Stop()
+      cannot stop a callback that has already been started and is waiting for b.mu, so each of them
+      may still run once, later -/
+  lateTimers : Nat := 0
   health : Bool := false          -- healthCheckingEnabled
   scSerial : Nat := 0
   picker : Picker := .none        -- the picker the channel has
@@ -163,7 +167,8 @@ def forcePush (s : St) (st : ConnState) (p : Picker) : St × List Ev :=
 def pushState (s : St) (st : ConnState) (p : Picker) : St × List Ev :=
   if st = s.state ∧ s.state ≠ .tf then (s, []) else forcePush s st p
 
-def cancelTimer (s : St) : St := { s with timer := false }
+/-- `b.cancelConnectionTimer()`: `cancelled = true; closeFn()` (a sync.OnceFunc: nothing the second time) -/
+def cancelTimer (s : St) : St := { s with timer := false, lateTimers := s.lateTimers + (if s.timer then 1 else 0) }
 
 /-- `scheduleNextConnectionLocked` -/
 def schedule (s : St) : St :=
@@ -289,12 +294,19 @@ def close (s : St) : St × List Ev :=
   let (s, ev) := closeSubConns s
   ({ cancelTimer s with state := .shutdown, sticky := false }, ev)
 
-/-- the happy-eyeballs timer callback -/
-def timerFire (s : St) : St × List Ev :=
-  if !s.timer then (s, []) else
-  let s := { s with timer := false }
+/-- the happy-eyeballs timer callback, once it holds b.mu: `if cancelled { return }; if increment() { requestConnectionLocked() }` -/
+def timerCallback (s : St) (cancelled : Bool) : St × List Ev :=
+  if cancelled then (s, []) else
   let (s, ok) := increment s
   if ok then requestConnection s else (s, [])
+
+/-- the armed timer fires -/
+def timerFire (s : St) : St × List Ev :=
+  if !s.timer then (s, []) else timerCallback { s with timer := false } false
+
+/-- the callback of a timer that was cancelled after it had fired gets b.mu at last -/
+def lateFire (s : St) : St × List Ev :=
+  if s.lateTimers = 0 then (s, []) else timerCallback { s with lateTimers := s.lateTimers - 1 } true
 
 /-- `updateSubConnState`, the `newState == Ready` branch (`sd` is already stored with its new raw state) -/
 def scReady (s : St) (sd : SC) : St × List Ev :=
@@ -398,6 +410,7 @@ inductive Op
   | sc (id : Nat) (st : ConnState) (err : Nat)
   | health (id : Nat) (st : ConnState) (err : Nat)
   | tick
+  | late          -- a cancelled timer's callback runs (it had fired before Stop())
   | exitIdle
   | pick
   | close
@@ -415,6 +428,7 @@ def step (s : St) : Op → St × Out
   | .sc id st err => let (s, ev) := scState s id st err; (s, { evs := ev })
   | .health id st err => let (s, ev) := healthState s id st err; (s, { evs := ev })
   | .tick => let (s, ev) := timerFire s; (s, { evs := ev })
+  | .late => let (s, ev) := lateFire s; (s, { evs := ev })
   | .exitIdle => let (s, ev) := exitIdle s; (s, { evs := ev })
   | .pick => let (s, ev, r) := pick s; (s, { evs := ev, pick := some r })
   | .close => let (s, ev) := close s; (s, { evs := ev })
